@@ -362,7 +362,17 @@ impl Sut for CkSut {
                 h.push(self.u.i2[k]);
             }
         }
-        json!({"tbl": self.f.verif_table(), "n": self.f.len(), "h": h})
+        // larger parameters (E3): alt-bucket offset of every universe fingerprint, as learned by probing
+        let mut hx: Vec<(u64, usize)> = vec![];
+        if self.u.by_class.is_empty() {
+            for k in 0..self.u.keys.len() {
+                let pair = (self.u.f[k], self.u.i1[k] ^ self.u.i2[k]);
+                if !hx.contains(&pair) {
+                    hx.push(pair);
+                }
+            }
+        }
+        json!({"tbl": self.f.verif_table(), "n": self.f.len(), "h": h, "hx": hx})
     }
 }
 
